@@ -1,6 +1,7 @@
 # c05lib.py — independent package tools for C05: a serialiser of notation trees with a free choice of prefixes / default
 # namespace / declaration layout, structure-preserving mutations of packages, and the comparison of a source package with
 # the package saved after loading it (expat + zipfile only; nothing of odfpy).
+import re
 import io, zipfile
 import xmllib as X, pkglib as P
 
@@ -155,7 +156,7 @@ def resolve(t, autos, refattrs):
         atts = []
         for a, v in t[2]:
             if tuple(a) in refattrs and any(n in defs for n in v.split()):
-                v = ' '.join('@' + defs[n] if n in defs else n for n in v.split())
+                v = ''.join(('@' + defs[n] if n in defs else n) for n in re.split(r'(\s+)', v))       # (the white space between the names as it is)
             atts.append((a, v))
         return ('E', t[1], atts, [go(k) for k in t[3]])
     return go(t)
